@@ -372,6 +372,10 @@ func (c *PathCtx) prepareCall(fr *frame, site ssa.Instruction, call *ssa.CallCom
 			for _, a := range call.Args {
 				args = append(args, fr.get(a))
 			}
+			if c.side["sinkobs"] != nil {
+				// a method of an object produced by a sink (logger.With(...).Warn(...)): observed as a log call
+				c.observeSink("sinkobject."+call.Method.Name(), args)
+			}
 			return
 		}
 		if recv.T == nil {
@@ -421,6 +425,9 @@ func (c *PathCtx) callSSA(caller *frame, pos token.Pos, fn *ssa.Function, args [
 		c.eng.funcsMu.Unlock()
 		return c.eng.intrinsics[k](c, fr, args)
 	case clsSink:
+		if c.side["sinkobs"] != nil && isLogSinkPkg(fnPkgPath(fn)) {
+			c.observeSink(fn.String(), args)
+		}
 		return c.sinkResult(fn)
 	case clsRedirect:
 		target := c.eng.redirects[c.eng.fnKey(fn)]
